@@ -128,7 +128,7 @@ func split(t *rapid.T, b []byte) [][]byte {
 
 func genResp(t *rapid.T) respSpec {
 	s := respSpec{
-		status: rapid.SampledFrom([]int{200, 200, 200, 201, 202, 203, 206, 301, 400, 404, 418, 500, 503, 599}).Draw(t, "status"),
+		status: rapid.SampledFrom([]int{200, 200, 200, 201, 202, 203, 206, 301, 400, 404, 418, 500, 503, 599, 600, 799, 999}).Draw(t, "status"),
 	}
 	if rapid.IntRange(0, 9).Draw(t, "bodiless") == 0 {
 		s.status = rapid.SampledFrom([]int{204, 304}).Draw(t, "bodiless_status")
@@ -532,6 +532,25 @@ func TestC17ThroughProxy(t *testing.T) {
 // ---------------------------------------------------------------------------
 // concurrent handlers over the shared writer pool (run with -race)
 
+// goneWriter is the response writer of a client that disconnects: after 'left' body bytes every
+// write fails.
+type goneWriter struct {
+	h    http.Header
+	left int
+}
+
+func (w *goneWriter) Header() http.Header { return w.h }
+func (w *goneWriter) WriteHeader(int)     {}
+func (w *goneWriter) Write(p []byte) (int, error) {
+	if len(p) <= w.left {
+		w.left -= len(p)
+		return len(p), nil
+	}
+	n := w.left
+	w.left = 0
+	return n, io.ErrClosedPipe
+}
+
 func TestC17Concurrent(t *testing.T) {
 	hx.Check(t, hx.Scale(15, 150), func(t *rapid.T) {
 		G := rapid.IntRange(2, 32).Draw(t, "goroutines")
@@ -553,6 +572,10 @@ func TestC17Concurrent(t *testing.T) {
 				specs[g].chunks = append([][]byte{tag}, specs[g].chunks...)
 			}
 		}
+		gone := rapid.Bool().Draw(t, "clients-going-away-mid-response")
+		if gone {
+			hx.Class("concurrent-workloads:with-clients-going-away")
+		}
 		var wg sync.WaitGroup
 		var failed atomic.Value
 		start := make(chan struct{})
@@ -565,6 +588,16 @@ func TestC17Concurrent(t *testing.T) {
 				h := gzip.NewGzipHandler(inner, ctRe)
 				plain := record(inner, reqs[g])
 				for i := 0; i < per && failed.Load() == nil; i++ {
+					if gone && i%5 == 2 {
+						// a client of this handler goes away in the middle of its response: its writes
+						// fail from some byte on; nobody looks at that response, the others must not notice
+						req := httptest.NewRequest(reqs[g].method, "http://example.com/x", nil)
+						if reqs[g].acceptEncoding != "-" {
+							req.Header.Set("Accept-Encoding", reqs[g].acceptEncoding)
+						}
+						h.ServeHTTP(&goneWriter{h: http.Header{}, left: (g*131 + i*17) % 400}, req)
+						continue
+					}
 					got := record(h, reqs[g])
 					judge(func(f string, a ...any) {
 						failed.CompareAndSwap(nil, fmt.Sprintf("goroutine %d/%d iteration %d: ", g, G, i)+fmt.Sprintf(f, a...))
